@@ -162,7 +162,8 @@ def _event_of(step):
 
 class C10(Prop):
     id = "C10"
-    coq_targets = ["theories/Properties/C10.vo"]
+    coq_targets = ["theories/Properties/C10.vo", "theories/Properties/C10Text.vo"]
+    theorem_prefixes = ("C10_", "C10T_")
     check_vo = "theories/Check/C10Check.vo"
     check_module = "Moc.Check.C10Check"
     case_imports = ["Moc.Json", "Moc.CodecMsg", "Moc.Codec"]
